@@ -116,7 +116,9 @@ def schema_references(rep, cases, rnd, d, quick: bool) -> None:
         rep.count(1)
         for s in c["doc"]:
             if pipe.has_class(s["k"]):
-                defs = [p for p, b in snap.items() if p.endswith(".py") and isinstance(b, bytes) and f"class {s['name']}".encode() in b]
+                import re as _re
+                pat = _re.compile(rb"^class " + s["name"].encode() + rb"[:(]", _re.M)
+                defs = [p for p, b in snap.items() if p.endswith(".py") and isinstance(b, bytes) and pat.search(b)]
                 if len(defs) != 1:
                     rep.violate("C20/class-not-shared", f"schema {s['name']} is defined in {len(defs)} modules: {defs}", adoc=c["doc"])
         for prob in treegen.relative_import_check(d / f"s{i:04d}")[:2]:
